@@ -76,20 +76,25 @@ PROPS = {
         level="fault_enumeration",
         batches=dict(
             quick=[dict(harness="sysenv", build="san", runs=4000, wall_cap=300),
-                   dict(harness="sysenv", build="plain", runs=1500, offset=4000, wall_cap=300)],
+                   dict(harness="sysenv", build="plain", runs=1500, offset=4000, wall_cap=300),
+                   dict(harness="sysenv", build="tsan", runs=1500, offset=6000, cfg="random", wall_cap=300)],
             thorough=[dict(harness="sysenv", build="san", runs=40000, wall_cap=1200),
+                      dict(harness="sysenv", build="tsan", runs=30000, offset=200000, cfg="random", wall_cap=1200),
                       dict(harness="sysenv", build="plain", runs=120000, offset=40000, wall_cap=1200),
                       dict(harness="sysenv", build="plain", runs=60, offset=160000, valgrind=True, workers=8, wall_cap=1200)],
         ),
         rule=("a case is one simulated history of executable_path()/prefix_path() calls against a generated "
               "/proc/self/exe target (length, depth, byte classes from the plan) delivered through the wrapped readlink, "
-              "optionally with an injected error return and with stale errno values (incl. EINTR) left by 'earlier calls'; one simulated installation "
+              "optionally with an injected error return and with stale errno values (24 kinds, incl. EINTR and every value a failed readlink leaves) left by 'earlier calls'; "
+              "directories of conventional names (bin, lib, usr, ...) appear at any depth; a 'concurrent_callers' step has three callers ask at once "
+              "(ThreadSanitizer build: truly concurrent, a static buffer shared between calls is a reported race; other builds: one after the other, values only); one simulated installation "
               "(all calls against one target) runs in one forked process, because a program's own path does not change while it runs: hidden per-process state "
               "in the code under test is neither punished when harmless (a cached result) nor leaked into the next installation; a call that does not return within 20 s is a hang violation. "
               "The 'sweep' configuration enumerates every total length 2..PATH_MAX-1 in one history (one process per length), each also with an error return. "
               "Non-trivial: at least two calls and, when the plan attaches faults, at least one delivered. Distinct: distinct run digests (FNV-1a over every returned string)."),
         probes=["readlink_error", "len_ge_1024",
-                "len_eq_PATH_MAX_minus_1", "depth_1", "depth_2", "stale_EINTR_in_errno_before_the_call"],
+                "len_eq_PATH_MAX_minus_1", "depth_1", "depth_2", "stale_EINTR_in_errno_before_the_call",
+                "stale_errno_is_one_readlink_could_have_left"],
         components=dict(real=["include/xtl/xsystem.hpp (executable_path, prefix_path)", "include/xtl/xplatform.hpp (endianness)"],
                         stub=["readlink(2) for \"/proc/self/exe\" via -Wl,--wrap=readlink (kernel truncation semantics, no terminator, errno)",
                               "stack dirtied with seeded garbage before each call (plain build)"]),
